@@ -17,37 +17,40 @@ EXTENDS Integers, Sequences, FiniteSets, TLC
 
 CONSTANTS Sleeps, Durations, MaxTime, SpuriousPolls
 
-VARIABLES now, pc, deadline, woken, msgs, heap, tpc, cancelled, wokeDropped, wokeCancelled, polls
-vars == <<now, pc, deadline, woken, msgs, heap, tpc, cancelled, wokeDropped, wokeCancelled, polls>>
+VARIABLES now, pc, deadline, woken, msgs, heap, tpc, cancelled, wokeDropped, wokeCancelled, polls,
+          wk        \* generation of the waker the task currently listens to (a sleep may be polled with a new waker)
+vars == <<now, pc, deadline, woken, msgs, heap, tpc, cancelled, wokeDropped, wokeCancelled, polls, wk>>
 
 Init == /\ now = 0 /\ pc = [i \in Sleeps |-> "new"] /\ deadline = [i \in Sleeps |-> -1]
         /\ woken = [i \in Sleeps |-> FALSE] /\ msgs = <<>> /\ heap = {} /\ tpc = "check"
         /\ cancelled = [i \in Sleeps |-> FALSE] /\ wokeDropped = [i \in Sleeps |-> FALSE]
-        /\ wokeCancelled = [i \in Sleeps |-> FALSE] /\ polls = 0
+        /\ wokeCancelled = [i \in Sleeps |-> FALSE] /\ polls = 0 /\ wk = [i \in Sleeps |-> 0]
 
 Tick == now < MaxTime /\ now' = now + 1
-        /\ UNCHANGED <<pc, deadline, woken, msgs, heap, tpc, cancelled, wokeDropped, wokeCancelled, polls>>
+        /\ UNCHANGED <<pc, deadline, woken, msgs, heap, tpc, cancelled, wokeDropped, wokeCancelled, polls, wk>>
 
 \* the task polls its sleep: first poll, after a wake-up, or spuriously (select with another future)
-Poll(i, dur) ==
+Poll(i, dur, newwaker) ==
     /\ pc[i] \in {"new", "pending"}
     /\ (pc[i] = "new" \/ woken[i] \/ (SpuriousPolls /\ polls < 2))
+    /\ (newwaker => wk[i] < 1)
     /\ polls' = IF pc[i] = "pending" /\ ~woken[i] THEN polls + 1 ELSE polls
+    /\ wk' = [wk EXCEPT ![i] = IF newwaker THEN @ + 1 ELSE @]
     /\ IF pc[i] = "pending" /\ now > deadline[i]
        THEN /\ pc' = [pc EXCEPT ![i] = "ready"]
             /\ UNCHANGED <<deadline, msgs>>
        ELSE LET d == IF pc[i] = "new" THEN now + dur ELSE deadline[i]
             IN /\ pc' = [pc EXCEPT ![i] = "pending"]
                /\ deadline' = [deadline EXCEPT ![i] = d]
-               /\ msgs' = Append(msgs, [type |-> "Wake", id |-> i, deadline |-> d])
+               /\ msgs' = Append(msgs, [type |-> "Wake", id |-> i, deadline |-> d, wk |-> wk'[i]])
     /\ woken' = [woken EXCEPT ![i] = FALSE]
     /\ UNCHANGED <<now, heap, tpc, cancelled, wokeDropped, wokeCancelled>>
 
 Drop(i) ==
     /\ pc[i] \in {"new", "pending"}
     /\ pc' = [pc EXCEPT ![i] = "dropped"]
-    /\ msgs' = Append(msgs, [type |-> "Cancel", id |-> i, deadline |-> 0])
-    /\ UNCHANGED <<now, deadline, woken, heap, tpc, cancelled, wokeDropped, wokeCancelled, polls>>
+    /\ msgs' = Append(msgs, [type |-> "Cancel", id |-> i, deadline |-> 0, wk |-> 0])
+    /\ UNCHANGED <<now, deadline, woken, heap, tpc, cancelled, wokeDropped, wokeCancelled, polls, wk>>
 
 Elapsed == {e \in heap : e.deadline < now}
 MinDeadline(S) == CHOOSE e \in S : \A f \in S : e.deadline <= f.deadline
@@ -57,39 +60,41 @@ TWake ==
     /\ tpc = "check" /\ Elapsed # {}
     /\ LET e == MinDeadline(Elapsed) IN
         /\ heap' = heap \ {e}
-        /\ woken' = [woken EXCEPT ![e.id] = TRUE]
+        \* the entry's waker is woken; the task only notices if it is the waker it currently listens to
+        /\ woken' = [woken EXCEPT ![e.id] = @ \/ e.wk = wk[e.id]]
         /\ wokeDropped' = [wokeDropped EXCEPT ![e.id] = @ \/ pc[e.id] = "dropped"]
         /\ wokeCancelled' = [wokeCancelled EXCEPT ![e.id] = @ \/ cancelled[e.id]]
-    /\ UNCHANGED <<now, pc, deadline, msgs, tpc, cancelled, polls>>
+    /\ UNCHANGED <<now, pc, deadline, msgs, tpc, cancelled, polls, wk>>
 TCheckDone ==
     /\ tpc = "check" /\ Elapsed = {} /\ tpc' = "recv"
-    /\ UNCHANGED <<now, pc, deadline, woken, msgs, heap, cancelled, wokeDropped, wokeCancelled, polls>>
+    /\ UNCHANGED <<now, pc, deadline, woken, msgs, heap, cancelled, wokeDropped, wokeCancelled, polls, wk>>
 \* second half: one message, or the timeout of recv_timeout(next deadline - now)
 TRecv ==
     /\ tpc = "recv" /\ msgs # <<>>
     /\ LET m == Head(msgs) IN
         /\ msgs' = Tail(msgs)
         /\ IF m.type = "Wake"
-           THEN heap' = heap \cup {[id |-> m.id, deadline |-> m.deadline]} /\ UNCHANGED cancelled
+           THEN heap' = heap \cup {[id |-> m.id, deadline |-> m.deadline, wk |-> m.wk]} /\ UNCHANGED cancelled
            ELSE heap' = {e \in heap : e.id # m.id} /\ cancelled' = [cancelled EXCEPT ![m.id] = TRUE]
     /\ tpc' = "check"
-    /\ UNCHANGED <<now, pc, deadline, woken, wokeDropped, wokeCancelled, polls>>
+    /\ UNCHANGED <<now, pc, deadline, woken, wokeDropped, wokeCancelled, polls, wk>>
 TTimeout ==
     /\ tpc = "recv" /\ msgs = <<>> /\ heap # {} /\ now >= MinDeadline(heap).deadline
     /\ tpc' = "check"
-    /\ UNCHANGED <<now, pc, deadline, woken, msgs, heap, cancelled, wokeDropped, wokeCancelled, polls>>
+    /\ UNCHANGED <<now, pc, deadline, woken, msgs, heap, cancelled, wokeDropped, wokeCancelled, polls, wk>>
 
 Next == Tick \/ TWake \/ TCheckDone \/ TRecv \/ TTimeout
-        \/ \E i \in Sleeps : Drop(i) \/ \E d \in Durations : Poll(i, d)
+        \/ \E i \in Sleeps : Drop(i) \/ \E d \in Durations, nw \in BOOLEAN : Poll(i, d, nw)
 Spec == Init /\ [][Next]_vars
 
 TypeOK == /\ pc \in [Sleeps -> {"new", "pending", "ready", "dropped"}] /\ tpc \in {"check", "recv"}
 \* a sleep never completes before its deadline
 NeverEarly == \A i \in Sleeps : pc[i] = "ready" => now > deadline[i]
-\* the wake-up token of a pending sleep is never lost: it is on the heap or on its way there
+\* the wake-up token of a pending sleep is never lost: an entry for the waker the task currently listens to is on
+\* the heap or on its way there (a sleep re-polled with another waker before its deadline registers that waker too)
 NoLostWakeup == \A i \in Sleeps : (pc[i] = "pending" /\ ~woken[i]) =>
-                    (\E e \in heap : e.id = i /\ e.deadline = deadline[i])
-                    \/ (\E k \in 1..Len(msgs) : msgs[k].type = "Wake" /\ msgs[k].id = i /\ msgs[k].deadline = deadline[i])
+                    (\E e \in heap : e.id = i /\ e.deadline = deadline[i] /\ e.wk = wk[i])
+                    \/ (\E k \in 1..Len(msgs) : msgs[k].type = "Wake" /\ msgs[k].id = i /\ msgs[k].deadline = deadline[i] /\ msgs[k].wk = wk[i])
 \* no wake-up before the deadline
 NoEarlyWake == \A i \in Sleeps : (woken[i] /\ pc[i] = "pending") => now > deadline[i]
 \* once the timer thread has processed the Cancel of a dropped sleep, its task is never woken again
